@@ -338,7 +338,7 @@ fn launch_rdp_thread<S: 'static + Read + Write + Send>(
     Ok(thread::spawn(move || {
         while wait_for_fd(handle as usize) && sync.load(Ordering::Relaxed) {
             let mut guard = rdp_client.lock().unwrap();
-            if let Err(Error::RdpError(e)) = guard.read(|event| {
+            if let Err(error) = guard.read(|event| {
                 match event {
                     RdpEvent::Bitmap(bitmap) => {
                         bitmap_channel.send(bitmap).unwrap();
@@ -346,11 +346,15 @@ fn launch_rdp_thread<S: 'static + Read + Write + Send>(
                     _ => println!("{}: ignore event", APPLICATION_NAME)
                 }
             }) {
-                match e.kind() {
-                    RdpErrorKind::Disconnect => {
-                        println!("{}: Server ask for disconnect", APPLICATION_NAME);
+                // Any error ends the session: an I/O or TLS error means the connection is gone
+                match error {
+                    Error::RdpError(e) => match e.kind() {
+                        RdpErrorKind::Disconnect => {
+                            println!("{}: Server ask for disconnect", APPLICATION_NAME);
+                        },
+                        _ => println!("{}: {:?}", APPLICATION_NAME, e)
                     },
-                    _ => println!("{}: {:?}", APPLICATION_NAME, e)
+                    e => println!("{}: {:?}", APPLICATION_NAME, e)
                 }
                 break;
             }
